@@ -188,12 +188,20 @@ def h_files(batch):
         ctx.check("compiled-tree-is-what-CPython-parses-modulo-documented-rewrites",
                   verdict in ("same", "excluded", "invalid-python") or verdict.startswith("KNOWN:"), file=f, verdict=verdict, detail=detail)
         ctx.check("debug-fstring-text-preserved", verdict != "KNOWN:debug-fstring", file=f, detail=detail)
-        RESULTS.append(verdict)
+        SEEN[src] = verdict
 
     return h
 
 
-RESULTS = []
+SEEN = {}  # program text -> verdict of the comparison with CPython (per worker process)
+
+
+def counters():
+    """Measured per obligation: distinct programs pushed through both front ends, and how many of them the
+    two front ends disagreed on (tree or validity) so that the disagreement had to be classified (documented
+    exclusion / not valid Python for CPython either / listed known finding / violation)."""
+    return {"programs": len(SEEN), "disagreements_checked": sum(1 for v in SEEN.values() if v != "same"),
+            "programs_with_identical_trees": sum(1 for v in SEEN.values() if v == "same")}
 
 STATEMENTS = [
     "x = a + b * c", "def f(a, b=1, *c, d, **e): return a", "for i in range(10): print(i)", "y = [i for i in z if i]",
@@ -243,6 +251,7 @@ def h_statements(stmts, vocab, nsites, rnd_seed):
         ctx.check("compiled-tree-is-what-CPython-parses-modulo-documented-rewrites",
                   verdict in ("same", "excluded", "invalid-python") or verdict.startswith("KNOWN:"), source=src, verdict=verdict, detail=detail)
         ctx.check("debug-fstring-text-preserved", verdict != "KNOWN:debug-fstring", source=src, detail=detail)
+        SEEN[src] = verdict
 
     return h
 
